@@ -78,6 +78,18 @@ def one_case(ctx: Ctx, stream: str, i: int) -> None:
             spec = tuple(spec_axes) if rng.random() < 0.7 else list(spec_axes)
         vshape = tuple((xshape[a] if xshape[a] != 1 or rng.random() < 0.5 else rng.choice([2, 3])) if rng.random() < 0.85 else 1
                        for a in axes_pos)
+    elif kind < 0.82 and strict and kind >= 0.75:
+        # strict operator: axes beyond the leaf rank on the right change the shape of the result even when the values
+        # have length 1 there — the specification must be refused
+        ext = rng.choice([1, 1, 2])
+        inside = rng.sample(range(xrank), min(max(vrank - 1, 0), xrank))
+        beyond = [xrank + ext - 1]
+        axes_sel = inside + beyond if rng.random() < 0.6 else beyond + inside
+        vshape = tuple(xshape[a] if a < xrank else rng.choice([1, 1, 1, 2]) for a in axes_sel)
+        spec = tuple(axes_sel) if len(axes_sel) > 1 or rng.random() < 0.5 else axes_sel[0]
+        if isinstance(spec, int):
+            vshape = (rng.choice([1, 1, 2]),)
+        vrank = len(vshape)
     elif kind < 0.7 and not strict:
         # explicit tuples, in ANY order, that extend the leaf on the right (axes ≥ rank) or on the left (axes < -rank)
         # while the other axes stay inside it, with compatible sizes: the leaf gets trailing / leading length-1 axes
